@@ -91,8 +91,12 @@ def run(pid: str, tier: str, families=None, extra_requests=None, worker=None, va
     confirm_fn = confirm_fn or confirm
     seed = common.seed()
     rep = common.Reporter(pid)
+    rotating = set()
     if tier == "quick":
         reqs = corpus.quick_requests() if quick_corpus == "full" else corpus.core_requests()
+        rot = corpus.rotating_requests(seed, 16 if quick_corpus == "full" else 6)
+        rotating = {r.key() for r in rot}
+        reqs = reqs + rot
         D, N, dim_mode, max_paths, tb = 2, 2, "corners", 6000, 240
     else:
         reqs = corpus.thorough_requests(seed)
@@ -117,6 +121,7 @@ def run(pid: str, tier: str, families=None, extra_requests=None, worker=None, va
     generated = set()
     samples = []
     n_viol = 0
+    rotating_cut = []
     unreplayed = []
     stmts = reached = 0
     checked = {}
@@ -142,7 +147,11 @@ def run(pid: str, tier: str, families=None, extra_requests=None, worker=None, va
         if st == "harness-error":
             rep.harness_error(f"{key} dims={r['dimvec']}: {r.get('error', '')[:300]}")
         elif st == "budget":
-            budget.append({"request": key, "dimvec": r["dimvec"], "why": r.get("error")})
+            entry = {"request": key, "dimvec": r["dimvec"], "why": r.get("error")}
+            if key in rotating:
+                rotating_cut.append(entry)  # a seed-rotated request outside the quick budget: recorded only
+            else:
+                budget.append(entry)
         elif st == "violation":
             n_viol += 1
             if n_viol > MAX_CONFIRM:
@@ -197,7 +206,8 @@ def run(pid: str, tier: str, families=None, extra_requests=None, worker=None, va
         "ir_statements": stmts,
         "ir_statements_reached": reached,
         "requests_with_growth_path": len(grew_requests),
-        "budget_exceeded": budget,
+        "budget_exceeded": budget, "rotating_requests": sorted(rotating),
+        "rotating_requests_cut_by_budget": rotating_cut,
         "bounds": {"dense_dimension_max": D, "stored_entries_per_compressed_level": N,
                    "dimension_vectors": dim_mode, "initial_capacity": "symbolic in [1, 2^20]",
                    "max_paths_per_task": max_paths},
